@@ -626,6 +626,8 @@ package spdxexp
 //@     invariant[C07,C01] (occursR(nodes, 0, prev, s) || occursR(nodes, curr, len(nodes), s)) <==> old(occursR(nodes, 0, len(nodes), s))
 //@     invariant[C07,C01] reconT(nodes[prev - 1].tree) == reconT(nodes[curr - 1].tree)
 //@     invariant[C07,C01] occursR(nodes, 0, len(nodes), s) ==> old(occursR(nodes, 0, len(nodes), s))
+//@   assert[C07,C01] after (*node).reconstructedLicenseString#1: splitRange: occursR(nodes, curr, len(nodes), s) <==> (reconT(nodes[curr].tree) == s || occursR(nodes, curr + 1, len(nodes), s))
+//@   assert[C07,C01] after (*node).reconstructedLicenseString#1: lastKept: occursR(nodes, 0, prev, s) || reconT(nodes[prev - 1].tree) != s
 //@ end
 
 //@ func deepSort
